@@ -710,3 +710,32 @@ func topParent(f *ssa.Function) *ssa.Function {
 	}
 	return f
 }
+
+// retResult returns the idx-th result of a Return, looking through the spill slot go/ssa introduces when the
+// function has defers (`*t0 = v; rundefers; t = *t0; return t`).
+func retResult(ret *ssa.Return, idx int) ssa.Value {
+	v := ret.Results[idx]
+	ld, ok := v.(*ssa.UnOp)
+	if !ok || ld.Op != token.MUL {
+		return v
+	}
+	al, ok := ld.X.(*ssa.Alloc)
+	if !ok {
+		return v
+	}
+	b := ret.Block()
+	for i := len(b.Instrs) - 1; i >= 0; i-- {
+		if st, ok := b.Instrs[i].(*ssa.Store); ok && st.Addr == al {
+			return st.Val
+		}
+	}
+	return v
+}
+
+func retResults(ret *ssa.Return) []ssa.Value {
+	out := make([]ssa.Value, len(ret.Results))
+	for i := range ret.Results {
+		out[i] = retResult(ret, i)
+	}
+	return out
+}
